@@ -130,6 +130,21 @@ CaseOK ==
        [] ctx = 6 -> rs = (IF want = "PASS" THEN "PASS" ELSE "SKIP")
        [] ctx = 7 -> d.file = want
 
+\* C04: the combination rules do not depend on the order or repetition of lines and
+\* alternatives (every permuted / repeated shape is itself a state of this model, where
+\* CaseOK ties the specification's evaluator - and through the replay the implementation -
+\* to CnfStatus)
+PermSeq(s, f) == [i \in 1 .. Len(s) |-> s[f[i]]]
+PermLaw ==
+  Len(cnf) > 0 =>
+  LET want == CnfStatus(cnf) IN
+  /\ \A f \in Permutations(1 .. Len(cnf)) : CnfStatus(PermSeq(cnf, f)) = want
+  /\ \A i \in 1 .. Len(cnf) : \A f \in Permutations(1 .. Len(cnf[i])) :
+        CnfStatus([cnf EXCEPT ![i] = PermSeq(cnf[i], f)]) = want
+  /\ \A i \in 1 .. Len(cnf) : CnfStatus(Append(cnf, cnf[i])) = want
+  /\ \A i \in 1 .. Len(cnf) : \A j \in 1 .. Len(cnf[i]) :
+        CnfStatus([cnf EXCEPT ![i] = Append(@, cnf[i][j])]) = want
+
 ASSUME PrintT(<<"TABLE", "doc", ToJson(Doc)>>)
 ASSUME PrintT(<<"TABLE", "leaves", ToJson([P |-> LeafP, F |-> LeafF, S |-> LeafS])>>)
 Holes == <<"/rules/0/b", "/rules/0/b/0/0/b", "/rules/0/b/0/0/b", "/rules/0/b/0/0/b",
